@@ -134,3 +134,44 @@ func VerifH_C04_deltaLengthByteArray() {
 	vAssert(p == len(enc), "spec: no trailing bytes")
 	vCover("roundtrip")
 }
+
+// DELTA_BYTE_ARRAY for FIXED_LEN_BYTE_ARRAY values: n values of `size` bytes
+// (repeated values, shared prefixes and distinct values arise from the symbolic
+// bytes by case split).
+func VerifH_C04_deltaFixedLenByteArray() {
+	vUnwind(200)
+	size := vChoose("size", 1, 2)
+	n := vChoose("n", 0, 3)
+	data := vBytes("values", n*size)
+	orig := append([]byte(nil), data...)
+	e := &ByteArrayEncoding{}
+	enc, err := e.EncodeFixedLenByteArray(vBytes("dirty", 3), data, size)
+	vAssert(err == nil, "encode succeeds")
+	vAssert(vBytesEq(data, orig), "encoder does not modify its input")
+	dec, err := e.DecodeFixedLenByteArray(vBytes("dirty2", 2), enc, size)
+	vAssert(err == nil, "decode succeeds")
+	vAssert(vBytesEq(dec, orig), "real decoder returns the input bytes")
+	prefixes, p1, ok := specDeltaDecodeAt(enc)
+	vAssert(ok, "spec: prefix lengths decode")
+	suffixes, p2, ok2 := specDeltaDecodeAt(enc[p1:])
+	vAssert(ok2, "spec: suffix lengths decode")
+	vAssert(len(prefixes) == n && len(suffixes) == n, "spec: one prefix and one suffix length per value")
+	if !ok || !ok2 || len(prefixes) != n || len(suffixes) != n {
+		return
+	}
+	pos := p1 + p2
+	var prev []byte
+	for i := 0; i < n; i++ {
+		pl, sl := int(prefixes[i]), int(suffixes[i])
+		vAssert(pl >= 0 && pl <= len(prev) && sl >= 0 && pos+sl <= len(enc) && pl+sl == size, "spec: lengths are consistent with the fixed size")
+		if pl < 0 || pl > len(prev) || sl < 0 || pos+sl > len(enc) {
+			return
+		}
+		v := append(append([]byte(nil), prev[:pl]...), enc[pos:pos+sl]...)
+		pos += sl
+		vAssert(vBytesEq(v, orig[i*size:(i+1)*size]), "spec decoder returns the input value")
+		prev = v
+	}
+	vAssert(pos == len(enc), "spec: no trailing bytes")
+	vCover("roundtrip")
+}
